@@ -1,5 +1,287 @@
-//! C04 — not implemented yet.
+//! C04 — quaternion algebra: Hamilton product, conjugate, 4-vector lane operations, rotation of vectors.
+//!
+//! glam-independent part: the reference number types (f64 for Quat, double-double for DQuat), the
+//! reference Hamilton product / sandwich product, and the generators.
+use vcore::num::DD;
+use vcore::*;
+
+pub mod refq {
+    use super::DD;
+
+    pub trait Num: Copy + std::fmt::Debug + PartialEq {
+        fn zero() -> Self;
+        fn nadd(self, o: Self) -> Self;
+        fn nsub(self, o: Self) -> Self;
+        fn nmul(self, o: Self) -> Self;
+        fn ndiv(self, o: Self) -> Self;
+        fn nsqrt(self) -> Self;
+        fn nneg(self) -> Self;
+        fn nabs(self) -> Self;
+        fn f(self) -> f64;
+        fn of(x: f64) -> Self;
+    }
+    impl Num for f64 {
+        fn zero() -> f64 { 0.0 }
+        fn nadd(self, o: f64) -> f64 { self + o }
+        fn nsub(self, o: f64) -> f64 { self - o }
+        fn nmul(self, o: f64) -> f64 { self * o }
+        fn ndiv(self, o: f64) -> f64 { self / o }
+        fn nsqrt(self) -> f64 { self.sqrt() }
+        fn nneg(self) -> f64 { -self }
+        fn nabs(self) -> f64 { self.abs() }
+        fn f(self) -> f64 { self }
+        fn of(x: f64) -> f64 { x }
+    }
+    impl Num for DD {
+        fn zero() -> DD { DD::ZERO }
+        fn nadd(self, o: DD) -> DD { self.add(o) }
+        fn nsub(self, o: DD) -> DD { self.sub(o) }
+        fn nmul(self, o: DD) -> DD { self.mul(o) }
+        fn ndiv(self, o: DD) -> DD { self.div(o) }
+        fn nsqrt(self) -> DD { self.sqrt() }
+        fn nneg(self) -> DD { self.neg() }
+        fn nabs(self) -> DD { self.abs() }
+        fn f(self) -> f64 { self.hi + self.lo }
+        fn of(x: f64) -> DD { DD::new(x) }
+    }
+
+    /// Hamilton product in (x, y, z, w) storage order. `signed == false` adds all 16 terms
+    /// (on absolute values this is Σ|terms| per component).
+    pub fn ham<X: Num>(q: &[X; 4], p: &[X; 4], signed: bool) -> [X; 4] {
+        let (qx, qy, qz, qw) = (q[0], q[1], q[2], q[3]);
+        let (px, py, pz, pw) = (p[0], p[1], p[2], p[3]);
+        let s = |a: X, b: X| if signed { a.nsub(b) } else { a.nadd(b) };
+        [
+            // x = qw px + qx pw + qy pz - qz py
+            s(qw.nmul(px).nadd(qx.nmul(pw)).nadd(qy.nmul(pz)), qz.nmul(py)),
+            // y = qw py - qx pz + qy pw + qz px
+            s(qw.nmul(py).nadd(qy.nmul(pw)).nadd(qz.nmul(px)), qx.nmul(pz)),
+            // z = qw pz + qx py - qy px + qz pw
+            s(qw.nmul(pz).nadd(qx.nmul(py)).nadd(qz.nmul(pw)), qy.nmul(px)),
+            // w = qw pw - qx px - qy py - qz pz
+            s(s(s(qw.nmul(pw), qx.nmul(px)), qy.nmul(py)), qz.nmul(pz)),
+        ]
+    }
+    pub fn conj<X: Num>(q: &[X; 4]) -> [X; 4] {
+        [q[0].nneg(), q[1].nneg(), q[2].nneg(), q[3]]
+    }
+    pub fn norm2<X: Num>(q: &[X; 4]) -> X {
+        q[0].nmul(q[0]).nadd(q[1].nmul(q[1])).nadd(q[2].nmul(q[2])).nadd(q[3].nmul(q[3]))
+    }
+    /// vector part of q (v, 0) q* — for a unit q the rotated vector, in general |q|² times it
+    pub fn sandwich<X: Num>(q: &[X; 4], v: &[X; 3]) -> [X; 3] {
+        let pv = [v[0], v[1], v[2], X::zero()];
+        let t = ham(&ham(q, &pv, true), &conj(q), true);
+        [t[0], t[1], t[2]]
+    }
+    /// Σ|monomials| per component of v(w² − b·b) + 2 b (v·b) + 2 w (b × v), in f64
+    pub fn sandwich_abs(q: &[f64; 4], v: &[f64; 3]) -> [f64; 3] {
+        let b = [q[0].abs(), q[1].abs(), q[2].abs()];
+        let w = q[3].abs();
+        let va = [v[0].abs(), v[1].abs(), v[2].abs()];
+        let b2 = b[0] * b[0] + b[1] * b[1] + b[2] * b[2];
+        let vb = va[0] * b[0] + va[1] * b[1] + va[2] * b[2];
+        let mut out = [0.0; 3];
+        for i in 0..3 {
+            let (j, k) = ((i + 1) % 3, (i + 2) % 3);
+            out[i] = va[i] * (w * w + b2) + 2.0 * b[i] * vb + 2.0 * w * (b[j] * va[k] + b[k] * va[j]);
+        }
+        out
+    }
+}
+
+pub trait Fl: Copy + PartialOrd + std::fmt::Debug + Default + 'static {
+    type R: refq::Num;
+    const BITS: u32;
+    const U: f64;
+    const TINY: f64;
+    fn fb(w: u64) -> Self;
+    fn tb(self) -> u64;
+    fn r(self) -> Self::R;
+    fn to64(self) -> f64;
+    fn of64(x: f64) -> Self;
+    fn ieq(a: Self, b: Self) -> bool;
+    fn fadd(self, o: Self) -> Self;
+    fn fsub(self, o: Self) -> Self;
+    fn fmul(self, o: Self) -> Self;
+    fn fdiv(self, o: Self) -> Self;
+    fn fneg(self) -> Self;
+}
+impl Fl for f32 {
+    type R = f64;
+    const BITS: u32 = 32;
+    const U: f64 = vcore::num::U32;
+    const TINY: f64 = 1.5e-45;
+    #[inline] fn fb(w: u64) -> f32 { f32::from_bits(w as u32) }
+    #[inline] fn tb(self) -> u64 { self.to_bits() as u64 }
+    #[inline] fn r(self) -> f64 { self as f64 }
+    #[inline] fn to64(self) -> f64 { self as f64 }
+    #[inline] fn of64(x: f64) -> f32 { x as f32 }
+    #[inline] fn ieq(a: f32, b: f32) -> bool { (a.is_nan() && b.is_nan()) || a == b }
+    #[inline] fn fadd(self, o: f32) -> f32 { self + o }
+    #[inline] fn fsub(self, o: f32) -> f32 { self - o }
+    #[inline] fn fmul(self, o: f32) -> f32 { self * o }
+    #[inline] fn fdiv(self, o: f32) -> f32 { self / o }
+    #[inline] fn fneg(self) -> f32 { -self }
+}
+impl Fl for f64 {
+    type R = DD;
+    const BITS: u32 = 64;
+    const U: f64 = vcore::num::U64;
+    const TINY: f64 = 5e-324;
+    #[inline] fn fb(w: u64) -> f64 { f64::from_bits(w) }
+    #[inline] fn tb(self) -> u64 { self.to_bits() }
+    #[inline] fn r(self) -> DD { DD::new(self) }
+    #[inline] fn to64(self) -> f64 { self }
+    #[inline] fn of64(x: f64) -> f64 { x }
+    #[inline] fn ieq(a: f64, b: f64) -> bool { (a.is_nan() && b.is_nan()) || a == b }
+    #[inline] fn fadd(self, o: f64) -> f64 { self + o }
+    #[inline] fn fsub(self, o: f64) -> f64 { self - o }
+    #[inline] fn fmul(self, o: f64) -> f64 { self * o }
+    #[inline] fn fdiv(self, o: f64) -> f64 { self / o }
+    #[inline] fn fneg(self) -> f64 { -self }
+}
+
+/// Generators (glam-independent); all values are f64 and get rounded to the scalar type by the caller.
+pub mod gen {
+    use proptest::prelude::*;
+    use proptest::strategy::BoxedStrategy;
+    use std::f64::consts::PI;
+
+    fn normalize4(q: [f64; 4]) -> [f64; 4] {
+        let n = (q[0] * q[0] + q[1] * q[1] + q[2] * q[2] + q[3] * q[3]).sqrt();
+        [q[0] / n, q[1] / n, q[2] / n, q[3] / n]
+    }
+    /// uniform direction from two uniforms
+    fn axis(z01: f64, phi01: f64) -> [f64; 3] {
+        let z = 2.0 * z01 - 1.0;
+        let r = (1.0 - z * z).max(0.0).sqrt();
+        let phi = 2.0 * PI * phi01;
+        [r * phi.cos(), r * phi.sin(), z]
+    }
+
+    /// Unit quaternions: uniform on S³ (Shoemake's rejection-free construction), axis-angle with the angle
+    /// within 1e-3..1e-7 of 0 or π, w within 1e-3..1e-10 of 0 (or exactly 0), single-axis rotations.
+    pub fn unit_quat() -> BoxedStrategy<[f64; 4]> {
+        let uni = (0.0f64..1.0, 0.0f64..1.0, 0.0f64..1.0)
+            .prop_map(|(u1, u2, u3)| {
+                let (a, b) = ((1.0 - u1).sqrt(), u1.sqrt());
+                normalize4([a * (2.0 * PI * u2).sin(), a * (2.0 * PI * u2).cos(), b * (2.0 * PI * u3).sin(), b * (2.0 * PI * u3).cos()])
+            })
+            .boxed();
+        let near = (0.0f64..1.0, 0.0f64..1.0, 3.0f64..7.0, any::<bool>(), any::<bool>())
+            .prop_map(|(z, phi, k, at_pi, neg)| {
+                let ax = axis(z, phi);
+                let d = 10f64.powf(-k);
+                let ang = if at_pi { PI - d } else { d };
+                let (s, c) = (ang / 2.0).sin_cos();
+                let sg = if neg { -1.0 } else { 1.0 };
+                normalize4([sg * ax[0] * s, sg * ax[1] * s, sg * ax[2] * s, sg * c])
+            })
+            .boxed();
+        let w0 = (0.0f64..1.0, 0.0f64..1.0, 3.0f64..10.0, 0u8..4)
+            .prop_map(|(z, phi, k, mode)| {
+                let ax = axis(z, phi);
+                let w = match mode {
+                    0 => 0.0,
+                    1 => -(10f64.powf(-k)),
+                    _ => 10f64.powf(-k),
+                };
+                let s = (1.0 - w * w).sqrt();
+                normalize4([ax[0] * s, ax[1] * s, ax[2] * s, w])
+            })
+            .boxed();
+        let single = (0usize..3, prop_oneof![3 => -2.0 * PI..2.0 * PI, 1 => proptest::sample::select(vec![0.0, PI / 2.0, PI, -PI / 2.0, 2.0 * PI])])
+            .prop_map(|(a, ang)| {
+                let (s, c) = (ang / 2.0f64).sin_cos();
+                let mut q = [0.0, 0.0, 0.0, c];
+                q[a] = s;
+                normalize4(q)
+            })
+            .boxed();
+        prop_oneof![55 => uni, 15 => near, 15 => w0, 15 => single].boxed()
+    }
+
+    /// Non-unit quaternions: a unit one times 2^s, or independent log-uniform components (some zero).
+    pub fn any_quat(smax: i32) -> BoxedStrategy<[f64; 4]> {
+        let scaled = (unit_quat(), -smax..=smax, 1.0f64..2.0).prop_map(|(q, s, m)| {
+            let f = m * 2f64.powi(s);
+            [q[0] * f, q[1] * f, q[2] * f, q[3] * f]
+        });
+        let indep = proptest::collection::vec((any::<bool>(), -8.0f64..8.0, 0u8..10), 4).prop_map(|v| {
+            let mut q = [0.0; 4];
+            for i in 0..4 {
+                let (s, e, z) = v[i];
+                q[i] = if z == 0 { 0.0 } else { 2f64.powf(e) * if s { -1.0 } else { 1.0 } };
+            }
+            q
+        });
+        prop_oneof![25 => unit_quat(), 40 => scaled, 35 => indep].boxed()
+    }
+
+    /// Well-scaled vectors: dense, single-axis, with zero components; overall scale 2^±smax.
+    pub fn vec3(smax: i32) -> BoxedStrategy<[f64; 3]> {
+        (proptest::collection::vec((-1.0f64..1.0, 0u8..8), 3), -smax..=smax, 0u8..6, 0usize..3)
+            .prop_map(|(c, s, mode, ax)| {
+                let f = 2f64.powi(s);
+                let mut v = [0.0; 3];
+                for i in 0..3 {
+                    v[i] = if c[i].1 == 0 { 0.0 } else { c[i].0 * f };
+                }
+                if mode == 0 {
+                    // single axis
+                    let x = if v[ax] == 0.0 { f } else { v[ax] };
+                    v = [0.0; 3];
+                    v[ax] = x;
+                }
+                v
+            })
+            .boxed()
+    }
+
+    /// Integer quaternion with |component| <= 64: mostly dense, some zeros, single-axis.
+    pub fn int_quat() -> BoxedStrategy<[i64; 4]> {
+        let dense = proptest::collection::vec(prop_oneof![1i64..=64, -64i64..=-1], 4).prop_map(|v| [v[0], v[1], v[2], v[3]]);
+        let any = proptest::collection::vec(-64i64..=64, 4).prop_map(|v| [v[0], v[1], v[2], v[3]]);
+        let small = proptest::collection::vec(-3i64..=3, 4).prop_map(|v| [v[0], v[1], v[2], v[3]]);
+        let single = (0usize..3, -64i64..=64, -64i64..=64).prop_map(|(a, x, w)| {
+            let mut q = [0, 0, 0, w];
+            q[a] = x;
+            q
+        });
+        prop_oneof![50 => dense, 25 => any, 15 => small, 10 => single].boxed()
+    }
+}
+
+mod simd {
+    pub const VARIANT: &str = "simd";
+    use ::glam_simd as glam;
+    include!("suite.rs");
+}
+mod scalar {
+    pub const VARIANT: &str = "scalar";
+    use ::glam_scalar as glam;
+    include!("suite.rs");
+}
+#[cfg(feature = "core")]
+mod core_simd {
+    pub const VARIANT: &str = "core";
+    use ::glam_core as glam;
+    include!("suite.rs");
+}
+
 fn main() {
-    eprintln!("c04: not implemented");
-    std::process::exit(2);
+    let args = Args::parse();
+    let mut subs = vec![];
+    #[cfg(not(feature = "core"))]
+    {
+        subs.extend(simd::subs(&args));
+        subs.extend(scalar::subs(&args));
+    }
+    #[cfg(feature = "core")]
+    {
+        subs.extend(core_simd::subs(&args));
+    }
+    let code = main_with("C04", "see MANIFEST / evidence rule", &args, subs);
+    std::process::exit(code);
 }
